@@ -110,7 +110,16 @@ def judge(case, impl_res, ans):
             return 'SPEC: %s.waveformsChannels are not the nearest same-probe channels, peak first' % fam
     if case.get('probes'):
         # merged datasets carry large token values whose float32 template storage is not exact: only the
-        # index bookkeeping (raw indices, listed channels) is claimed on them
+        # index bookkeeping (raw indices, listed channels) and the geometry are claimed on them
+        exp_pos, xoff = [], 0.
+        for pr in case['probes']:
+            xs = [xy[0] + xoff for xy in pr['channel_positions']]
+            exp_pos += [[x, xy[1]] for x, xy in zip(xs, pr['channel_positions'])]
+            xoff = 2. * max(xs) - min(xs)
+        lc = _find(ok, 'channels.localCoordinates', label)
+        if sm['channel_positions'] != exp_pos or lc is None or lc['vals'] != exp_pos:
+            return ('SPEC: channel positions of the merged source / of the export are not the probes\' positions translated '
+                    'along x (depths are read from them): %s vs %s' % ((lc or {}).get('vals'), exp_pos))
         return None
     # 2b. the cluster waveforms everything below is derived from (C08): count-weighted means of the
     # templates on the dominant template's channels when the dataset is curated
@@ -222,6 +231,10 @@ def gen(tier, rng):
             # every other merged case uses channel maps with holes (dead channels): the raw-index inversion
             # is claimed for arbitrary maps
             c = M.merge_case(rng, nprobes=[1, 2, 3, 4][i % 4], gapped=(i % 2 == 0))
+            for pr in c['probes']:
+                # every probe gets two distinct x coordinates (single-column probes are C12's open finding)
+                if len({xy[0] for xy in pr['channel_positions']}) == 1:
+                    pr['channel_positions'][0][0] += 50.
             yield dict(p=PID, probes=c['probes'], dirnames=c['dirnames'], factor=[1, 2.5][i % 2], n_closest=rng.pick([2, 3, 12]))
         else:
             spec = DC.dense_spec(rng, raw=(i % 4 == 1), feats=(i % 2 == 0), probes=(i % 5 == 0), empty=['none', 'last', 'middle'][i % 3],
